@@ -1,8 +1,8 @@
 SPECIFICATION TraceSpec
 INVARIANTS
-  SnapshotData
-  SnapshotIndexed
-  IndexSound
+  T_SnapshotData
+  T_SnapshotIndexed
+  T_IndexSound
   KeyAlive
   ContentAddressed
   NonceFresh
@@ -13,6 +13,7 @@ INVARIANTS
   NoLockRespected
   ForgetMatchesReport
   NoWaste
+  PruneStatsOK
 PROPERTIES
   R_PackBeforeIndex
   R_IndexBeforeSnapshot
